@@ -24,6 +24,8 @@ pub struct SchedState {
     slow_salt: u64,
     /// cap on recorded trace length (explicit replay beyond it answers 0)
     cap: usize,
+    /// multi-thread (uncontrolled) run: synchronous sites perturb with OS-level yields
+    pub uncontrolled: bool,
 }
 
 fn site_hash(site: &str) -> u64 {
@@ -61,10 +63,19 @@ impl SchedState {
             stall_at,
             slow_salt,
             cap: 200_000,
+            uncontrolled: false,
         }
     }
 
     pub fn decide(&mut self, site: &'static str) -> u32 {
+        if site.starts_with("tfb.") && !self.uncontrolled {
+            // synchronous probe sites inside the staging buffer: on the single-threaded runtime they cannot
+            // change the interleaving, and they also fire while the runtime is shut down (task cancellation
+            // order is not schedule-controlled), so they are counted but neither consume decisions nor
+            // enter the schedule trace
+            *self.sites.entry(site).or_insert(0) += 1;
+            return 0;
+        }
         let step = self.steps;
         self.steps += 1;
         *self.sites.entry(site).or_insert(0) += 1;
